@@ -141,7 +141,7 @@ pub fn create_strat() -> impl Strategy<Value = CreateSpec> {
         proptest::option::weighted(0.55, amp_strat()),
         proptest::collection::vec(prop_oneof![30 => 0u8..6, 1 => 6u8..10], 2..=4),
         valid_fees(),
-        proptest::option::weighted(0.3, 0u8..12),
+        proptest::option::weighted(0.3, prop_oneof![6 => 0u8..12, 1 => 12u8..18]),
         any::<u8>(),
     )
         .prop_map(|(user, amp, mut assets, fees, explicit_id, rot)| {
